@@ -53,3 +53,32 @@ impl Args {
         self.kv.contains_key(k)
     }
 }
+
+/// Runs a child process with a deadline. Returns (stdout, Some(success)) or (partial stdout, None) when it
+/// had to be killed (a hang of the code under test is data, not a tool error).
+pub fn run_child(cmd: &mut std::process::Command, secs: u64) -> (String, Option<bool>) {
+    use std::io::Read;
+    let mut child = cmd.stdout(std::process::Stdio::piped()).stderr(std::process::Stdio::null()).spawn().expect("spawn child");
+    let mut out = child.stdout.take().unwrap();
+    let reader = std::thread::spawn(move || {
+        let mut s = String::new();
+        let _ = out.read_to_string(&mut s);
+        s
+    });
+    let t0 = std::time::Instant::now();
+    let status = loop {
+        match child.try_wait() {
+            Ok(Some(st)) => break Some(st.success()),
+            Ok(None) => {
+                if t0.elapsed().as_secs() >= secs {
+                    let _ = child.kill();
+                    let _ = child.wait();
+                    break None;
+                }
+                std::thread::sleep(std::time::Duration::from_millis(5));
+            }
+            Err(_) => break Some(false),
+        }
+    };
+    (reader.join().unwrap_or_default(), status)
+}
